@@ -55,7 +55,7 @@ def scenario_steps(rng, kind, reloads):
 
 
 def fnv_res(ids):
-    """Same projection as the hook: ids themselves if <= 64, else [n, digest] (digest reduced to 31 bits for TLC)."""
+    """Same projection as the hook: ids themselves if <= 64, else [-n, digest] (digest reduced to 31 bits for TLC)."""
     if len(ids) <= 64:
         return ids
     h = 0xcbf29ce484222325
@@ -63,13 +63,13 @@ def fnv_res(ids):
         for b in (i & 0xff, (i >> 8) & 0xff, (i >> 16) & 0xff, (i >> 24) & 0xff):
             h ^= b
             h = (h * 0x100000001b3) & 0xffffffffffffffff
-    return [len(ids), (h & MASK) % 2147483647]
+    return [-len(ids), (h & MASK) % 2147483647]
 
 
 def ev_res(e):
     if "ids" in e:
         return e["ids"]
-    return [e["n"], e["digest"] % 2147483647]
+    return [-e["n"], e["digest"] % 2147483647]
 
 
 PRODUCER = r'''
